@@ -625,6 +625,43 @@ def conf_reload(seed, mon=False):
 PROFILES["conf_reload"] = conf_reload
 
 
+def conf_od(seed, mon=False):
+    """on_demand watchers: started by the periodic check when a connection waits on a managed socket, not before;
+    next to them ordinary watchers that are running, or were stopped on request"""
+    import random
+    rng = random.Random(seed)
+    ws = [{"name": "od1", "np": rng.choice([1, 2, 2]), "G": rng.choice([0.1, 0.2]), "W": rng.choice([0.0, 0.1]),
+           "on_demand": True, "respawn": rng.random() < 0.8, "priority": rng.choice([0, 1])},
+          {"name": "w2", "np": rng.choice([1, 2]), "G": 0.1, "W": 0.0, "priority": rng.choice([0, 1, 2]),
+           "autostart": rng.random() < 0.85}]
+    if rng.random() < 0.4:
+        ws.append({"name": "od3", "np": 1, "G": 0.1, "W": 0.0, "on_demand": True, "priority": rng.choice([0, 2])})
+    sc = {"seed": seed, "watchers": ws, "check_delay": rng.choice([0.3, 0.5]), "warmup_delay": rng.choice([0.0, 0.0, 0.1]),
+          "stubborn": [], "obeys": [True], "instant_death": rng.random() < 0.2,
+          "script": [{"op": "boot"}, {"op": "tick", "n": rng.randint(2, 8)}]}
+    s = sc["script"]
+    names = [w["name"] for w in ws]
+    for _ in range(rng.randint(3, 10)):
+        r = rng.random()
+        if r < 0.3:
+            s.append({"op": "sockev", "ready": rng.random() < 0.7})
+        elif r < 0.5:
+            s.append({"op": "die", "sel": [rng.choice(names), rng.randint(0, 2)], "status": rng.choice(scenario.EXIT_STATUSES)})
+        elif r < 0.7:
+            c = rng.choice(["stop", "stop", "start", "status", "list", "numprocesses"] if not mon else
+                           ["stop", "stop", "status", "list", "numprocesses"])
+            s.append({"op": "req", "cmd": c, "props": {"name": rng.choice(names), "waiting": rng.random() < 0.5}})
+        else:
+            s.append({"op": "tick", "n": rng.randint(1, 8)})
+    s.append({"op": "tick", "n": 12})
+    s.append({"op": "end", "xprobe": False, "passes": 1})
+    return sc
+
+
+PROFILES["conf_od"] = conf_od
+PROFILES["ondemand"] = conf_od
+
+
 def reloadmon(seed):
     """C12 under schedules: as conf_reload, but only the file and reloadconfig ever change the daemon's settings
     (the statement quantifies over edit sequences, not over incr / stop requests in between)"""
